@@ -48,3 +48,12 @@ impl Formatter for JsonFormatter {
 
     fn dispatch_parse_header(&self, _f_name: String) {}
 }
+
+/// Verification hook (only with `--cfg sqruff_verif`): what `completion_message` would print.
+#[cfg(sqruff_verif)]
+impl JsonFormatter {
+    pub fn verif_to_json(&self) -> String {
+        let lock = self.violations.lock().unwrap();
+        serde_json::to_string(&*lock).unwrap()
+    }
+}
